@@ -15,6 +15,7 @@ RULE = ("expression trees of depth 1-4 over {+,-,neg,pos,*,**k} with leaves from
 
 DEFAULT_OPTS = {"retain_coefficients": False, "retain_names": True}
 BOUND = {"int": 2 ** 62, "float": 2 ** 52, "complex": 2 ** 52}
+NARROW_BOUND = {"int16": 2 ** 14, "int32": 2 ** 30, "float32": 2 ** 22, "complex64": 2 ** 22}
 
 
 def gen_leaf(rng, common, kinds, leaf_kind=None, small=False):
@@ -23,6 +24,17 @@ def gen_leaf(rng, common, kinds, leaf_kind=None, small=False):
     lk = leaf_kind or gen.choice(rng, ["poly", "ndarray", "scalar", "list"], p=[.7, .12, .1, .08])
     if lk == "poly":
         s = gen.gen_struct(rng, shape=shape, kind=kind, nterms=int(rng.integers(0, 4 if small else 7)))
+        r = rng.random()
+        if r < 0.12:
+            # coefficient dtypes the compiled kernel does not know (values stay exactly representable)
+            s["dtype"] = {"int": gen.choice(rng, ["int32", "int16"]), "float": "float32", "complex": "complex64"}[kind]
+        elif r < 0.2 and s["terms"]:
+            # an exponent beyond what one key byte can hold
+            k = int(rng.integers(len(s["terms"])))
+            j = int(rng.integers(len(s["names"])))
+            s["terms"][k][0][j] += int(gen.choice(rng, [66, 70, 130, 260]))
+            seen = set()
+            s["terms"] = [t for t in s["terms"] if not (tuple(t[0]) in seen or seen.add(tuple(t[0])))]
     else:
         if lk == "scalar":
             shape = ()
@@ -111,6 +123,9 @@ def gen_case(rng, idx, depth):
         b, k, n = bound_of(tree, env)
         kind = "complex" if any(e["kind"] == "complex" for e in env) else "float" if any(e["kind"] == "float" for e in env) else "int"
         if b >= BOUND[kind] or n > 400:
+            continue
+        narrow = [NARROW_BOUND[e["dtype"]] for e in env if e.get("dtype") in NARROW_BOUND]
+        if narrow and b >= min(narrow):
             continue
         return {"id": idx, "prop": "C01", "op": "expr", "opts": DEFAULT_OPTS, "env": env, "tree": tree, "depth": depth}
     # fall back to a trivially valid case
